@@ -66,6 +66,8 @@ def project(module) -> dict:
                 "lineno": m.lineno,
                 "endlineno": m.endlineno,
             }
+            if kind == "attribute":
+                rec["hasvalue"] = getattr(m, "value", None) is not None
             if kind == "function":
                 rec["params"] = [
                     {"name": q.name, "kind": q.kind.value if q.kind else None, "req": bool(q.required)} for q in (m.parameters or [])
